@@ -231,7 +231,7 @@ func vdLimitAddressSpace() {
 	if err != nil {
 		return
 	}
-	lim := pages*uint64(os.Getpagesize()) + 1<<30
+	lim := pages*uint64(os.Getpagesize()) + uint64(vEnvInt("VERIF_DEC_ASLIMIT_GIB", 1))<<30
 	_ = syscall.Setrlimit(syscall.RLIMIT_AS, &syscall.Rlimit{Cur: lim, Max: lim})
 }
 
@@ -361,6 +361,10 @@ func TestVerifDecoderWorker(t *testing.T) {
 			if exit {
 				f.Close()
 				os.Exit(3)
+			}
+			if os.Getenv("VERIF_DEC_ONECASE") != "" {
+				put("D", map[string]int{"done": 1})
+				return
 			}
 		}
 	}
@@ -496,6 +500,31 @@ func vdRunSubjects(dir string, w int, subj []int) (infos []vdSubjInfo, done []vd
 		if open != nil {
 			// the worker died inside this decode
 			res, site, cause, msg := vdCrashInfo(o.stderr)
+			if site == "?" {
+				// died without a Go traceback (e.g. the C runtime could not create a thread right below the
+				// address-space limit): once more, alone, with more head room
+				o2 := vdSpawn(dir, fmt.Sprintf("w%dr", w), spawns, []string{"VERIF_DEC_SUBJECTS=" + strings.Join(sl, ","),
+					fmt.Sprintf("VERIF_DEC_RESUME=%d:%d", posOf[open.Si], open.Ci), "VERIF_DEC_ONECASE=1", "VERIF_DEC_ASLIMIT_GIB=4"})
+				var r2 *vdRes
+				for _, ln := range o2.lines {
+					if len(ln) > 2 && ln[0] == 'R' {
+						var r vdRes
+						if json.Unmarshal([]byte(ln[2:]), &r) == nil {
+							r2 = &r
+						}
+					}
+				}
+				if r2 != nil {
+					done = append(done, vdDone{*open, *r2})
+					pos, ci = posOf[open.Si], open.Ci+1
+					continue
+				}
+				if o2.err != nil {
+					if r, s2, c2, m2 := vdCrashInfo(o2.stderr); s2 != "?" {
+						res, site, cause, msg = r, s2, c2, m2
+					}
+				}
+			}
 			if len(msg) > 160 {
 				msg = msg[:160]
 			}
